@@ -28,7 +28,7 @@ CHECKS = {
    note="policy trees depth<=3, width<=3; prefixes /8../30; the manual-silent cases are not generated; drains above the limit are inconclusive"),
  "C11": dict(level="model_checking", design="4/C11", technique="TLA+ DhcpPolicy!ModelOpts evaluated by TLC for every recorded handle_pkt reply (PolicyTrace) + TLC check of the C11 clauses on the model over an enumerated family",
    text="TLC checks only-requested / null-removes / inner-overrides-outer on the model over an enumerated family, and for each generated (configuration, request) compares the option map of the real reply, projected onto symbolic values by the harness's own RFC encoders, with ModelOpts(config, request).",
-   note="value alphabet of two values + null per option over ten option codes; empty default search list accepted either way"),
+   note="value alphabet of two values + null per option over eleven option codes (one of them above 127); empty default search list accepted either way"),
  "C12": dict(level="model_checking", design="4/C12", technique="TLA+ DhcpWire: TLC model-checks the RFC 3396 reference chunking over boundary lengths and validates traces of Dhcp::serialise / dhcppkt::parse / Fragment::new_udp4 / get_broadcast_flag (DhcpWireTrace) and of the frames the real DhcpService puts on a veth pair (DhcpFrameTrace)",
    text="TLC enumerates option multisets over the boundary lengths (0,1,2,254..257,509..512,765,1500), proves the reference chunking carries them and refutes the truncating encoder; every case plus random and decoder-image messages is encoded by the real code, walked by an independent TLV walker and decoded again, and TLC checks stream arithmetic, header and option equality; frames: lengths and both one's-complement checksums recomputed by TLC (incl. directed double-carry payloads); broadcast bit for sampled (quick) or all 65536 (thorough) flag values.",
    note="fidelity decided over projections (walker, splitter, digests) computed by the harness; the destination rule (limited broadcast iff the broadcast bit) is decided on captured frames of the running service"),
